@@ -50,6 +50,7 @@ type Options struct {
 	Wrap     func(mwdb.DB) mwdb.DB
 	SeedName string
 	DiskDB   bool // use the real on-disk CreateDB/OpenDB path instead of in-memory storage
+	NoAddrs  bool // do not issue any address at setup (C12)
 }
 
 // World is the closed system.
@@ -126,7 +127,11 @@ func New(dir string, opt Options) (*World, error) {
 	w.SHash = fixedHash(0x51)
 	w.SPk = stdPk(w.SHash)
 	w.S2Pk = stdPk(fixedHash(0x52))
-	if err := w.createWallet("A", PassA, 2); err != nil {
+	na := 2
+	if opt.NoAddrs {
+		na = 0
+	}
+	if err := w.createWallet("A", PassA, na); err != nil {
 		return nil, err
 	}
 	if !opt.NoB {
@@ -275,4 +280,16 @@ func (w *World) NextSpendable(c *Coin, l *Ledger) bool {
 		return false
 	}
 	return blockchain.SequenceLockActive(lock, next, time.Unix(1<<40, 0))
+}
+
+// Restart drops the wallet manager and every volatile structure and reopens the same
+// wallet database the way loader.openWallet does (goroutines are not started in direct mode).
+func (w *World) Restart() error {
+	w.I.CloseRaw()
+	i, err := inst.OpenAt(w.I.Store, w.N, w.Opt.Gap, inst.PubPass, w.Opt.Wrap)
+	if err != nil {
+		return err
+	}
+	w.I = i
+	return nil
 }
